@@ -27,6 +27,8 @@ impl MdEntry {
 pub const NAME_POOL: &[&str] = &[
     "x-a", "k", "trace-id", "a.b", "a_b", "bin", "x-bin-", "x-binx", "xbin", "x-bi", "x-bin", "data-bin",
     "-bin", "a-bin", "k-bin", "x1", "x2", "zz-top",
+    // custom names that merely look like protocol headers (the statement reserves exactly six names)
+    "grpc-status-upstream", "grpc-messages", "grpc-statu", "x-grpc-status", "grpc-status-upstream-bin", "content-types",
 ];
 
 pub fn name(allow_reserved: bool) -> BoxedStrategy<String> {
